@@ -1373,7 +1373,9 @@ func selectLiteralStrategy(literals *literal.Seq, litAnalysis literalAnalysis) S
 	// Patterns with >32 literals exceed Teddy's capacity but Aho-Corasick handles
 	// thousands of patterns with O(n) matching time.
 	// Speedup: 50-500x by using dense array transitions (~1.6 GB/s throughput).
-	if litAnalysis.hasAhoCorasickLiterals && literals.AllComplete() {
+	// Not with position assertions (^, $, \b, \B): the automaton matches the literals
+	// wherever they occur, and unlike Teddy it is not wrapped with a line-start check.
+	if litAnalysis.hasAhoCorasickLiterals && literals.AllComplete() && !litAnalysis.hasAnchors {
 		return UseAhoCorasick
 	}
 
